@@ -135,6 +135,9 @@ func (e *Engine) registerIntrinsics() {
 		if err != nil {
 			panic(fmt.Sprintf("native tokenize failed: %v", err))
 		}
+		if r.HostPanic != "" {
+			rtPanic(r.HostPanic) // a Go panic inside the real tokenizer is a panic of the code under test
+		}
 		return tuple{fr.ex.makeTokens(r.Tokens), fr.ex.errOrNil(r.Err)}
 	})
 	e.Register(p+"checkConstraint", func(fr *frame, a []value) value {
@@ -142,12 +145,16 @@ func (e *Engine) registerIntrinsics() {
 			unsupported("checkConstraint needs the native helper")
 		}
 		var r struct {
-			OK  bool
-			Err string
+			OK        bool
+			Err       string
+			HostPanic string
 		}
 		fr.ex.used("checkConstraint→native")
 		if err := e.Native.Request(map[string]string{"Op": "constraint", "Src": str(a[0], "checkConstraint of symbolic text")}, &r); err != nil {
 			panic(fmt.Sprintf("native checkConstraint failed: %v", err))
+		}
+		if r.HostPanic != "" {
+			rtPanic(r.HostPanic) // a Go panic inside the real checkConstraint is a panic of the code under test
 		}
 		return tuple{r.OK, fr.ex.errOrNil(r.Err)}
 	})
